@@ -5,12 +5,12 @@ constants, unsafe fixpoints and assumed-positivity inductives coqchk lists - is 
 together with a hash of all compiled files; bin/check reports it (thorough tier: instead of a coqchk run of its own;
 quick tier: as additional information) as long as the compiled tree is still that one.  The full output is kept in
 coq/COQCHK.txt."""
-import os, sys, json, time
+import os, sys, json, time, re
 sys.path.insert(0, os.path.dirname(os.path.abspath(__file__)))
 import verifcheck as vc
 
 def main():
-    pids = sorted(p[:-2] for p in os.listdir(os.path.join(vc.COQ, "Properties")) if p.endswith(".v"))
+    pids = sorted(p[:-2] for p in os.listdir(os.path.join(vc.COQ, "Properties")) if re.match(r"^C\d\d\.v$", p))
     with vc.Lock():
         missing = [p for p in pids if not os.path.exists(os.path.join(vc.COQ, "Properties", p + ".vo"))]
         if missing:
